@@ -25,7 +25,7 @@ Theorem get_id_is_a_listing : forall sort_e sort_i,
   forall m files ix, index_of_with sort_e sort_i m files = Some ix ->
   forall t id t' pk lc, get_id ix t id = Some (t', pk, lc) ->
     t' = t /\ In (pk, lc) (listings files t id).
-Proof. exact get_id_listing_lemma. Qed.
+Proof. exact get_id_listing_dbg. Qed.
 Print Assumptions get_id_is_a_listing.
 
 (* get_id succeeds exactly when has does wherever full entries are kept (so the two indexing
@@ -36,14 +36,14 @@ Theorem get_id_some_iff_has : forall sort_e sort_i,
   forall m files ix, index_of_with sort_e sort_i m files = Some ix ->
   forall t id, is_some (get_id ix t id) =
                match m, t with Full, _ => has ix t id | _, Tree => has ix t id | _, Data => false end.
-Proof. exact get_id_some_lemma. Qed.
+Proof. exact get_id_some_dbg. Qed.
 Print Assumptions get_id_some_iff_has.
 
 (* Size totals equal the sum of the listed pack sizes (explicit size, else header-derived size),
    per type, in every mode. *)
 Theorem total_size_sum : forall sort_e sort_i m files ix, index_of_with sort_e sort_i m files = Some ix ->
   forall t, total_size ix t = total_spec files t.
-Proof. exact total_size_lemma. Qed.
+Proof. exact total_size_dbg. Qed.
 Print Assumptions total_size_sum.
 
 (* The reduced modes answer presence identically for what they retain: trees in every mode,
@@ -52,7 +52,7 @@ Theorem mode_agreement : forall sort_e sort_i,
   sort_ok e_id sort_e -> sort_ok (fun x => x) sort_i ->
   forall m files ix, index_of_with sort_e sort_i m files = Some ix ->
   forall t id, has ix t id = retains m t && listed files t id.
-Proof. exact has_char. Qed.
+Proof. exact has_char_dbg. Qed.
 Print Assumptions mode_agreement.
 
 (* No panic on inputs whose computed pack sizes fit u32. *)
